@@ -175,7 +175,7 @@ func (g *G) fnArgs() string {
 		case 1:
 			parts[i] = fmt.Sprintf("-%d", g.pick(50)+1)
 		case 2:
-			parts[i] = choose(g, `"s"`, `"a b"`, `"x,y"`, `"(z)"`, `"é"`, `""`, `"\"q\""`, `"\\"`)
+			parts[i] = choose(g, `"s"`, `"a b"`, `"x,y"`, `"(z)"`, `"é"`, `""`, `"\"q\""`, `"\\"`, `"a  b.  c"`, `"  "`, `" lead"`, "\"t\tb\"", `"t\tb"`)
 		case 3:
 			parts[i] = choose(g, "1.5", "0.25", "2e3")
 		case 4:
@@ -263,7 +263,7 @@ func (g *G) fnArgsFor(fn string) string {
 	switch g.fnNames[fn] {
 	case "env":
 		if g.chance(0.8) {
-			return fmt.Sprintf(`"VERIF_ENV_%d", %s`, g.pick(3), choose(g, `"dflt"`, `""`, `"d e"`))
+			return fmt.Sprintf(`"VERIF_ENV_%d", %s`, g.pick(3), choose(g, `"dflt"`, `""`, `"d e"`, `"d  e"`))
 		}
 		return fmt.Sprintf(`"VERIF_ENV_%d"`, g.pick(3))
 	case "envInt":
@@ -275,7 +275,7 @@ func (g *G) fnArgsFor(fn string) string {
 		if g.chance(0.4) {
 			return ""
 		}
-		return choose(g, `"later"`, `"in development"`, `""`, `"parameter"`)
+		return choose(g, `"later"`, `"in development"`, `""`, `"parameter"`, `"not  yet.  Ask  ops"`, "\"tab\there \"", `" x "`)
 	case "FnTyped":
 		return choose(g, `2, 10, "s"`, `1.5, 3, "x y"`, `0, -4, ""`, `7, 0, "é"`)
 	}
@@ -539,6 +539,10 @@ func (g *G) service(name string, before, params []string) cfg.Service {
 			}
 			s.Calls = append(s.Calls, cl)
 		}
+		if len(s.Calls) > 0 && g.chance(0.3) {
+			// the same call once more, identical in every respect: each declared call is executed
+			s.Calls = append(s.Calls, s.Calls[g.pick(len(s.Calls))])
+		}
 	}
 	// explicit empty collections are legal and must mean "nothing"
 	if isObj && s.Calls == nil && g.chance(0.08) {
@@ -743,6 +747,21 @@ func (g *G) addGetters() {
 		case nil:
 			// failing or nil service: a pointer type of any package is fine
 			t = choose(g, "*"+g.Ref(g.anyPkg(), "Obj"), "")
+		}
+		if g.chance(0.08) {
+			// a declared type the object can certainly not be converted to: every accessor has to report it
+			switch o := v.(type) {
+			case *ref.ObjM:
+				if p := g.anyPkg(); p != o.TPkg {
+					t = "*" + g.Ref(p, "Obj")
+				} else if g.O.ValueGetters {
+					t = g.Ref(o.TPkg, "Obj")
+				}
+			case ref.ObjM:
+				t = "*" + g.Ref(o.TPkg, "Obj")
+			case *ref.WrapM:
+				t = "*" + g.Ref(g.anyPkg(), "Obj")
+			}
 		}
 		if t != "" {
 			s.Type = cfg.P(t)
